@@ -128,10 +128,11 @@ func VerifH_C03_update() {
 	vAssume(n == 1 || b[0]&0x1f == 0x1f)
 	hf := &HeaderField{}
 	_, upd, used, st := refHpackRep(t, true, b)
-	rest, err := hp.nextField(hf, true, 0, b)
+	rest, field, err := hp.nextField(hf, true, 0, b)
 	if st == refOK {
 		vAssert(upd && used == n, "C03.update.ref-shape")
 		vAssert(err == nil && len(rest) == 0, "C03.update.rejects-valid")
+		vAssert(!field, "C03.update.is-not-a-field")
 		vAssert(refTableIs(t, hp) && hp.maxTableSize == t.max, "C03.update.table")
 	} else {
 		vAssert(err != nil, "C03.update.accepts-invalid")
@@ -175,12 +176,13 @@ func vC03Field(hp *HPACK, t *refTable, maxLen int) {
 		vAssume(vC03QuickStatic(f.sidx))
 	}
 
-	rest, err := hp.nextField(hf, blockStart, fieldsProcessed, b)
+	rest, field, err := hp.nextField(hf, blockStart, fieldsProcessed, b)
 	switch {
 	case st == refOK:
 		vAssert(err == nil, "C03.field.rejects-valid")
 		if err == nil {
 			vAssert(len(rest) == len(b)-pos, "C03.field.consumed")
+			vAssert(field == got, "C03.field.says-whether-there-was-a-field")
 			if got {
 				vAssert(refFieldIs(&f, hf.key, hf.value), "C03.field.name-value")
 				vAssert(hf.sensible == f.never, "C03.field.never-indexed-flag")
